@@ -3,6 +3,7 @@ package x509
 import (
 	"crypto/x509/pkix"
 	"net"
+	"time"
 )
 
 // H10-ip: a host given as an IP literal (optionally in brackets) is matched against the IP
@@ -69,4 +70,46 @@ func zzStubParseIPLit(s string) net.IP {
 		return net.IP{0x20, 0x01, 0x0d, 0xb8, 0, 0, 0, 0, 0, 0, 0, 0, 0, 0, 0, 1}
 	}
 	return nil
+}
+
+// H10-ip-host-under-dns-constraints: DNS name constraints speak about DNS names only: a leaf
+// that is identified by an IP SAN and requested by that IP literal is not rejected because
+// some CA above it carries permitted DNS subtrees (RFC 5280, 4.2.1.10: a constraint applies to
+// names of its own form) - while a dNSName of the leaf outside the subtrees still is.
+//
+//verif:property C10
+//verif:expect-reach end accepted rejected
+//verif:bound a CA with the permitted DNS subtree "a"; a leaf with the IP SAN 1.2.3.4 and no dNSName, or additionally the dNSName "a" (inside) or "b" (outside); requested host "1.2.3.4", "[1.2.3.4]", the DNS name "a", "b", or none; CA as intermediate or root
+//verif:outside net.ParseIP itself (table for the literals, the real function on native replay); the rest of path validation (zzH_c10_build)
+//verif:stub-symbolic net.ParseIP zzStubParseIPLit
+//verif:native-smoke
+//verif:unwind 80
+func zzH_c10_ip_host_under_dns_constraints() {
+	host := []string{"1.2.3.4", "[1.2.3.4]", "a", "b", ""}[vChoice("host", 5)]
+	leafDNS := [][]string{nil, {"a"}, {"b"}}[vChoice("leafDNS", 3)]
+	leaf := &Certificate{IPAddresses: []net.IP{{1, 2, 3, 4}}, DNSNames: leafDNS,
+		NotBefore: time.Unix(1000, 0), NotAfter: time.Unix(5000, 0)}
+	ca := &Certificate{PermittedDNSDomains: []string{"a"}, IsCA: true, BasicConstraintsValid: true, MaxPathLen: -1,
+		NotBefore: time.Unix(1000, 0), NotAfter: time.Unix(5000, 0)}
+	typ := []int{intermediateCertificate, rootCertificate}[vChoice("caType", 2)]
+	opts := &VerifyOptions{DNSName: host, CurrentTime: time.Unix(2000, 0)}
+	err := ca.isValid(typ, []*Certificate{leaf}, opts)
+	// the names the constraint speaks about: the leaf's dNSNames; without any, the requested
+	// name - when it is a DNS name (it is then matched through the common name)
+	var want bool
+	switch {
+	case len(leafDNS) > 0:
+		want = leafDNS[0] == "a"
+	case host == "a" || host == "" || host == "1.2.3.4" || host == "[1.2.3.4]":
+		want = true
+	default:
+		want = false
+	}
+	if err == nil {
+		vReach("accepted")
+	} else {
+		vReach("rejected")
+	}
+	vAssert("dns-constraints-apply-to-dns-names-only", (err == nil) == want)
+	vReach("end")
 }
